@@ -38,6 +38,10 @@ def observed(log):
     return ent, vals
 
 
+async def _acall(f, args):
+    return await f(*args)
+
+
 def op_call(d, args):
     async def a():
         return await d(*args)
@@ -496,12 +500,44 @@ def c18_case(col, rng, cidx, tmpdir, jobref=None):
 
     sp = gen_shape(rng, nmin=3, nmax=7, flags=False, reuse=True, mc_max=3)
     sp["is_async"] = rng.random() < 0.3
-    plain = S.make_fns(sp)
+    g = S.site_graph(sp)
+    # some setup nodes (ancestor closed, no DAG argument): their results are part of the cache file too
+    setup18 = set()
+    for i, nd in enumerate(sp["nodes"]):
+        uses_param = any(a[0] == "p" for a in nd["args"])
+        reused = sum(1 for m in sp["nodes"] if m["fn"] == nd["fn"]) > 1
+        if not uses_param and not reused and all(q in setup18 for q in g.predecessors(i)) and rng.random() < 0.2:
+            setup18.add(i)
+            sp["fns"][nd["fn"]]["setup"] = True
+    plain = {name: probes.mkprobe(name, shape=tuple(fs["shape"]) if fs.get("shape") else None) for name, fs in sp["fns"].items()}
     ids = S.node_ids(sp)
     n = len(ids)
-    g = S.site_graph(sp)
     d, _e, _p = S.build_tawazi(sp, plain=plain)
     path = os.path.join(tmpdir, "c%d.pkl" % cidx)
+    inst_setup = {}  # id(DAG instance) -> {setup site: value computed on that instance} (setup results survive on the instance)
+
+    def rec(inst, lg):
+        m = inst_setup.setdefault(id(inst), {})
+        for e in lg:
+            if e["kind"] == "FEXIT" and e.get("ok") and e["node"] in ids and ids.index(e["node"]) in setup18:
+                m.setdefault(ids.index(e["node"]), e["value"])
+
+    def rec_from_file(inst, content):
+        """setup results found in a cache file an execution started from are promoted to the instance as well"""
+        m = inst_setup.setdefault(id(inst), {})
+        for i in setup18:
+            if ids[i] in content:
+                m.setdefault(i, content[ids[i]])
+
+    early = None
+    if rng.random() < 0.15:
+        # a restart executor created (and called once, in vain) BEFORE the cache file exists - e.g. a polling consumer
+        early = d.executor(from_cache=path)
+        re0 = probes.run_op("restart_before_file_exists", lambda: do(d, lambda: early(Sym("arg", cidx)), lambda: _acall(early, [Sym("arg", cidx)])))
+        col.counters["c18_restart_called_before_file_exists"] += 1
+        if re0[0] == "ok":
+            col.violation(pid, "restart_without_cache_file_returned_normally", dict(value=short(re0[1])), {"kind": "rerun_job", "job": dict(jobref or {}, n_cases=cidx + 1)})
+            early = None
     args = [Sym("arg", cidx)]
     mode = rng.choice(["whole", "targets", "cache_deps_of"])
     kw1 = {"cache_in": path}
@@ -520,6 +556,7 @@ def c18_case(col, rng, cidx, tmpdir, jobref=None):
     rp = {"kind": "rerun_job", "job": dict(jobref or {}, n_cases=cidx + 1), "source": S.render(sp), "caching": S.jsonable(kw1)}
     B.reset_log()
     r1 = probes.run_op("caching_run", lambda: op_exec(d, kw1, args))
+    rec(d, B.snapshot())
     col.evaluations += 1
     if r1[0] != "ok":
         col.violation(pid, "caching_run_raised", dict(exc=repr(r1[1])[:300], caching=S.jsonable(kw1), source=S.render(sp)), rp)
@@ -542,6 +579,23 @@ def c18_case(col, rng, cidx, tmpdir, jobref=None):
         if not anc <= cached_sites or any(i in cached_sites for i in nn):
             col.violation(pid, "cache_deps_of_file_content_wrong", dict(
                 n=[ids[i] for i in nn], file_has=sorted(ids[i] for i in cached_sites), ancestors=sorted(ids[i] for i in anc), source=S.render(sp)), rp)
+    if early is not None:
+        from tawazi.errors import TawaziUsageError
+
+        B.reset_log()
+        re1 = probes.run_op("restart_same_executor_after_file_was_written", lambda: do(d, lambda: early(*args), lambda: _acall(early, args)))
+        _lge = B.snapshot()
+        ente, _ve = observed(_lge)
+        rec(d, _lge)
+        if re1[0] == "ok":
+            rec_from_file(d, cached)
+        col.evaluations += 1
+        if re1[0] != "ok":
+            if not isinstance(re1[1], TawaziUsageError):
+                col.violation(pid, "restart_from_cache_raised", dict(exc=repr(re1[1])[:300], executor_first_called_before_file_existed=True, source=S.render(sp)), rp)
+        elif sorted(x for x in ente if x in cached):
+            col.violation(pid, "restart_recomputed_cached_nodes", dict(recomputed=sorted(x for x in ente if x in cached),
+                                                                      executor_first_called_before_file_existed=True, source=S.render(sp)), rp)
     # restart
     rmode = "cache_deps_of" if mode == "cache_deps_of" else rng.choice(["whole", "same", "targets"])
     kw2 = {"from_cache": path}
@@ -566,9 +620,13 @@ def c18_case(col, rng, cidx, tmpdir, jobref=None):
         kw2["cache_in"] = recache
     B.reset_log()
     probes.reset_counts()
+    pre_dd = dict(inst_setup.get(id(dd), {}))
     r2 = probes.run_op("restart_run", lambda: op_exec(dd, kw2, args))
     log = B.snapshot()
     ent, _v = observed(log)
+    rec(dd, log)
+    if r2[0] == "ok":
+        rec_from_file(dd, cached)
     col.evaluations += 1
     col.counters["c18_restarts"] += 1
     rp2 = dict(rp, restart=S.jsonable(kw2))
@@ -580,13 +638,14 @@ def c18_case(col, rng, cidx, tmpdir, jobref=None):
     if recomputed:
         col.violation(pid, "restart_recomputed_cached_nodes", dict(recomputed=recomputed, cached=sorted(k for k in cached if k in ids),
                                                                   caching=S.jsonable(kw1), restart=S.jsonable(kw2), source=S.render(sp)), rp2)
-    exp_run = {ids[i] for i in sel2 if i not in cached_sites}
+    exp_run = {ids[i] for i in sel2 if i not in cached_sites and i not in pre_dd}
     if set(ent) != exp_run and not recomputed:
         col.violation(pid, "restart_executed_set_wrong", dict(executed=sorted(ent), expected=sorted(exp_run), caching=S.jsonable(kw1), restart=S.jsonable(kw2), source=S.render(sp)), rp2)
     if rmode == "cache_deps_of":
         col.counters["c18_cache_deps_of_restarts"] += 1
     # value: the un-cached reference for the restart's selection (cached values are the same terms: same arguments)
-    ref = S.run_reference(sp, args, plain, enabled=sel2 | {i for i in cached_sites})
+    ref = S.run_reference(sp, args, plain, enabled=sel2 | {i for i in cached_sites},
+                          env_values={i: vv for i, vv in pre_dd.items() if i not in cached_sites})
     if ref[0] == "ok":
         col.counters["c18_value_checks"] += 1
         exp = ref[1].result
@@ -604,7 +663,11 @@ def c18_case(col, rng, cidx, tmpdir, jobref=None):
         if cached2 is not None:
             B.reset_log()
             r3 = probes.run_op("second_restart", lambda: op_exec(d2, kw3, args))
-            ent3, _v3 = observed(B.snapshot())
+            _lg3 = B.snapshot()
+            ent3, _v3 = observed(_lg3)
+            rec(d2, _lg3)
+            if r3[0] == "ok":
+                rec_from_file(d2, cached2)
             col.evaluations += 1
             col.counters["c18_second_restarts_from_recached_file"] += 1
             if r3[0] != "ok":
@@ -618,19 +681,25 @@ def c18_case(col, rng, cidx, tmpdir, jobref=None):
     if rng.random() < 0.3 and r2[0] == "ok":
         # the same cache file is written again by a later caching run with OTHER arguments, and restarted from again
         args_b = [Sym("arg", cidx, "second")]
+        B.reset_log()
         rb1 = probes.run_op("caching_run_same_path", lambda: op_exec(d2, kw1, args_b))
+        rec(d2, B.snapshot())
         kwb = {k: v for k, v in kw2.items() if k != "cache_in"}
+        pre_b = dict(inst_setup.get(id(d2), {}))
         B.reset_log()
         rb2 = probes.run_op("restart_run_same_path", lambda: op_exec(d2, kwb, args_b))
         entb, _vb = observed(B.snapshot())
         col.evaluations += 1
         col.counters["c18_same_path_rewritten_and_restarted"] += 1
-        refb = S.run_reference(sp, args_b, plain, enabled=sel2 | {i for i in cached_sites})
+        refb = S.run_reference(sp, args_b, plain, enabled=sel2 | {i for i in cached_sites},
+                               env_values={i: vv for i, vv in pre_b.items() if i not in cached_sites})
         if rb1[0] == "ok" and refb[0] == "ok":
             if rb2[0] != "ok":
                 col.violation(pid, "restart_from_cache_raised", dict(exc=repr(rb2[1])[:300], second_use_of_same_file=True, source=S.render(sp)), rp2)
             elif not same(refb[1].result, rb2[1]):
                 col.violation(pid, "restart_returns_values_of_an_older_cache_file_content", dict(
+                    differing=[(ids[q], short(a_, 120), short(b_, 120)) for q, (a_, b_) in enumerate(zip(refb[1].result, rb2[1])) if not same(a_, b_)][:3]
+                    if isinstance(rb2[1], tuple) and isinstance(refb[1].result, tuple) else None,
                     expected=short(refb[1].result, 300), got=short(rb2[1], 300), caching=S.jsonable(kw1), restart=S.jsonable(kwb), source=S.render(sp)), rp2)
             elif sorted(x for x in entb if x in cached):
                 col.violation(pid, "restart_recomputed_cached_nodes", dict(recomputed=sorted(x for x in entb if x in cached), second_use_of_same_file=True, source=S.render(sp)), rp2)
